@@ -91,7 +91,8 @@ PROPS = {
         'k_groups': [
             # precedence / associativity of the condition parser: one concrete token shape each, operands fully symbolic
             {'module': 'preprocess/condition_parser.rs',
-             'harnesses': [(h, 'bounded:one token shape, u64 operands complete') for h in C11_SHAPES], 'tier': 'quick'},
+             'harnesses': [(h, 'bounded:one token shape, u64 operands complete') for h in C11_SHAPES]
+                          + [('c11_u64_from_bool_contract', 'complete')], 'tier': 'quick'},
             # directive gating / routing in preprocess_command: one directive on a symbolic chain of depth <= 2, heavy callees recorded
             {'module': 'preprocess/preprocess.rs',
              'harnesses': [(h, 'bounded:one directive shape, chain depth <= 2') for h in C11_GATING], 'tier': 'quick'},
